@@ -302,10 +302,20 @@ pub fn exec_run_case(sc: &Scenario, tape: Tape, trace_on: bool, want_sample: boo
 // ---------------------------------------------------------------------------------------------
 // shrinking
 
-fn fails_same(sc: &Scenario, tape: &[u64], oracle: &str) -> Option<Vec<u64>> {
+/// Does this tape still fail the same way? "The same way" is the same oracle id AND not one of
+/// the listed known findings: several root causes can share an oracle id (a round-trip
+/// mismatch is a round-trip mismatch), and a minimisation that drifts from an unlisted
+/// violation into a listed one would make the parent file it as known and stay silent.
+fn fails_same(sc: &Scenario, tape: &[u64], oracle: &str, known: &[Known]) -> Option<Vec<u64>> {
     match exec_run(sc, Tape::replay(tape.to_vec()), false, false) {
         Exec::Done(out) => match &out.verdict {
-            Err(v) if v.oracle == oracle && out.harness_error.is_none() => Some(out.tape),
+            Err(v)
+                if v.oracle == oracle
+                    && out.harness_error.is_none()
+                    && known_match(known, sc.property, &v.oracle, &v.msg).is_none() =>
+            {
+                Some(out.tape)
+            }
             _ => None,
         },
         Exec::Hang => None,
@@ -313,7 +323,7 @@ fn fails_same(sc: &Scenario, tape: &[u64], oracle: &str) -> Option<Vec<u64>> {
 }
 
 /// Deterministic tape minimisation: truncate, delete spans, zero, halve/decrement.
-pub fn shrink(sc: &Scenario, tape: Vec<u64>, oracle: &str) -> (Vec<u64>, usize) {
+pub fn shrink(sc: &Scenario, tape: Vec<u64>, oracle: &str, known: &[Known]) -> (Vec<u64>, usize) {
     let mut best = tape;
     let mut budget = sc.shrink_budget;
     let mut used = 0usize;
@@ -323,7 +333,7 @@ pub fn shrink(sc: &Scenario, tape: Vec<u64>, oracle: &str) -> (Vec<u64>, usize) 
         }
         *budget -= 1;
         used += 1;
-        if let Some(norm) = fails_same(sc, &cand, oracle) {
+        if let Some(norm) = fails_same(sc, &cand, oracle, known) {
             // adopt the normalised tape actually consumed (never longer than the candidate's use)
             *best = if norm.len() <= cand.len() { norm } else { cand };
             true
@@ -785,12 +795,12 @@ fn cmd_worker(scenarios: &[Scenario], a: WorkerArgs) -> i32 {
                 let (min_tape, used) = if case.is_some() {
                     (out.tape.clone(), 0)
                 } else {
-                    shrink(sc, out.tape.clone(), &v.oracle)
+                    shrink(sc, out.tape.clone(), &v.oracle, &known)
                 };
                 // re-run minimised tape with tracing for the replay file
                 let (v2, trace) = match exec_run_case(sc, Tape::replay(min_tape.clone()), true, true, case) {
                     Exec::Done(o) => match o.verdict {
-                        Err(v2) if v2.oracle == v.oracle => (v2, o.trace),
+                        Err(v2) if v2.oracle == v.oracle && known_match(&known, sc.property, &v2.oracle, &v2.msg).is_none() => (v2, o.trace),
                         _ => (v.clone(), vec!["(minimised tape did not reproduce in-process; original kept)".into()]),
                     },
                     Exec::Hang => (v.clone(), vec![]),
